@@ -45,6 +45,7 @@ import CtyModel.Lemmas.d05Bridge
 import CtyModel.Lemmas.d05Chain
 import CtyModel.Lemmas.d05Prefix
 import CtyModel.Lemmas.d05Range
+import CtyModel.Lemmas.d05With
 namespace CtyModel
 namespace C05
 open Refine
@@ -734,6 +735,48 @@ theorem nullness_is_kept [EqOracle] (b b' : Builder) (cs : List RefineCall) (hd 
 -- non-vacuity: on the unknown list, `Null()` is accepted, so is a length bound after it, and then `NotNull()` panics
 example : (@run textOracle sampleList [.null, .lenLower 3]).isOk = true ∧
     (@run textOracle sampleList [.null, .lenLower 3, .notNull]).isPanic = true := ⟨rfl, rfl⟩
+
+/-! ## the other entry points: `RefineWith`, `RefineNotNull`
+
+`Value.RefineWith(refiners...)` and `Value.RefineNotNull()` (modelled after the Go control flow in
+`CtyModel/RefineWith.lean`, diffed against the code as `rfn.with` / `rfn.nn`) are the builder chain in other
+clothes, for every oracle — so every theorem above about `refine v cs` is a theorem about them. -/
+
+/-- `RefineWith` with refiners that return the builder they were given is `Refine()`, all their calls in order,
+`NewValue()`; with no refiner at all the receiver itself comes back; a refiner that returns another builder is
+never accepted. -/
+theorem refineWith_is_refine [EqOracle] (v : Value) (rs : List D05.Refiner) :
+    (rs ≠ [] → rs.all (·.same) = true → D05.refineWith v rs = refine v (rs.flatMap (·.calls))) ∧
+    D05.refineWith v [] = .ok v ∧
+    (rs.any (fun r => !r.same) = true → ∀ w, D05.refineWith v rs ≠ .ok w) :=
+  ⟨D05.refineWith_same, rfl, fun h _ => D05.refineWith_different h⟩
+
+/-- `RefineNotNull()` is `Refine().NotNull().NewValue()`. -/
+theorem refineNotNull_is_refine [EqOracle] (v : Value) : D05.refineNotNull v = refine v [.notNull] :=
+  D05.refineNotNull_eq v
+
+/-- e.g. "never changes its type, never widens its range" for `RefineWith`, for exact number equality. -/
+theorem refineWith_narrows [ExactOracle] (v w : Value) (rs : List D05.Refiner)
+    (h : D05.refineWith v rs = .ok w) : w.ty = v.ty ∧ ∀ x, γV w x = true → γV v x = true := by
+  by_cases hne : rs = []
+  · subst hne
+    have : w = v := by simpa [D05.refineWith] using h.symm
+    subst this
+    exact ⟨rfl, fun _ hx => hx⟩
+  · cases hany : rs.any (fun r => !r.same) with
+    | true => exact absurd h (D05.refineWith_different hany)
+    | false =>
+      have hs : rs.all (·.same) = true := by
+        rw [List.all_eq_true]
+        intro r hr
+        have := List.any_eq_false.mp hany r hr
+        simpa using this
+      rw [D05.refineWith_same hne hs] at h
+      exact ⟨type_preserved v w _ h, fun x hx => refine_narrows v w _ h x hx⟩
+
+-- non-vacuity: two refiners on an unknown number, accepted under the code's oracle
+example : (@D05.refineWith textOracle ⟨.number, .unk .unref⟩
+    [⟨[.notNull], true⟩, ⟨[.numLower (.known (.fin false 1 0 64)) true], true⟩]).isOk = true := rfl
 
 /-! ### the delimiter table is the one in the source (regenerated on every check) -/
 
